@@ -63,12 +63,12 @@ ENTRIES = {
         "design_ref": "DESIGN.md §4",
     },
     "C14": {
-        "text": 'Invariant theorem over all reachable states (listeners queued): a checkout whose channel is still empty - it waits for its own dial or for somebody else\'s - is in the waiter queue of its own origin, so a non-shareable connection released for that origin while anybody is listening is put into a listening request\'s channel and not into the idle list (C14_listener_is_queued, C14_release_serves_a_listener). Step-level theorems for every state: push delivers to the first live waiter; a checkout whose channel holds a connection takes it at its next poll whatever its dial is doing; a not-ready dialing checkout keeps listening; with continue_after_preemption the abandoned dial carries on in a background task, without it the channel is closed and the marker cleared. Defect (receiver dropped at first poll) found and fixed.',
+        "text": 'Invariant theorem over all reachable states (listeners queued): a checkout whose channel is still empty - it waits for its own dial or for somebody else\'s - is in the waiter queue of its own origin, so a non-shareable connection released for that origin while anybody is listening is put into a listening request\'s channel and not into the idle list (C14_listener_is_queued, C14_release_serves_a_listener). Step-level theorems for every state: push delivers to the first live waiter; a checkout whose channel holds a connection takes it at its next poll whatever its dial is doing; a not-ready dialing checkout keeps listening; with continue_after_preemption the abandoned dial carries on in a background task, without it the channel is closed and the marker cleared. Defect (receiver dropped at first poll) found and fixed. The op stream includes mutex contention (another thread holds the pool lock while a dial completes, a connection is released or a request is cancelled): for the model nothing happens, so any shortcut taken under contention is a departure.',
         "note": 'Trusted: Lean kernel; hand-written pool model tied to the real ConnectionPoolService by per-op differential runs (result, marker set, waiter queues, idle lists, dial and drop counters); tokio oneshot/scheduler semantics assumed; step-level theorems hold for every state; the reachable-state invariants are listed in DESIGN.md §4 together with what is not a theorem (runtime fairness, dial-count minimality).',
         "design_ref": "DESIGN.md §4",
     },
     "C15": {
-        "text": 'Invariant theorem: for every configuration, every operation sequence of any length and every origin, the idle list never exceeds max_idle_per_host, at every point of the history (proved through all 10 ops and every pool primitive). Implementation snapshots are checked against the limit after every op. Defect (limit never enforced) found and fixed.',
+        "text": 'Invariant theorem: for every configuration, every operation sequence of any length and every origin, the idle list never exceeds max_idle_per_host, at every point of the history (proved through all 10 ops and every pool primitive). Implementation snapshots are checked against the limit after every op. Defect (limit never enforced) found and fixed. C15_per_origin: per origin, not only per idle list - an origin\'s idle connections all sit under the one token its key was given, in every reachable state; the monitor counts per origin across lists, on histories with up to 2000 origins. The configuration\'s way through Client::builder (seven builder sequences) is covered by the cfgp stream against a real server counting connections.',
         "note": 'Trusted: Lean kernel; hand-written pool model tied to the real ConnectionPoolService by per-op differential runs (result, marker set, waiter queues, idle lists, dial and drop counters); tokio oneshot/scheduler semantics assumed; step-level theorems hold for every state; the reachable-state invariants are listed in DESIGN.md §4 together with what is not a theorem (runtime fairness, dial-count minimality).',
         "design_ref": "DESIGN.md §4",
     },
@@ -78,9 +78,9 @@ ENTRIES = {
                 "within the caller's capacity, exactly replay-prefix ++ inner stream (nothing lost, duplicated, invented); what "
                 "reaches the inner writer is exactly what plain/vectored writes reported accepted; flush/shutdown are forwarded; the "
                 "in-process pipe is FIFO in both directions and propagates data and end-of-stream. Model tied to the real adapters "
-                "(run-time composed stacks, real duplex/unix/tcp pipes) by differential runs.",
+                "(run-time composed stacks, real duplex/unix/tcp pipes) by differential runs. Two-task programs (transfers up to 40 KB in either direction, chunked writes, flush, shutdown, read to the end) run over the same pipes and over the client and server TLS streams on a DuplexStream, held to the verdicts of the same programs on the pipe model.",
         "note": "Partial: memory safety of the three unsafe blocks is not expressible in the model; tokio's duplex and the kernel "
-                "sockets are assumed; TLS streams are covered under C12.",
+                "sockets are assumed; rustls record framing is not modelled (TLS kinds are judged by the pipe model's verdicts).",
         "design_ref": "DESIGN.md §5 C18",
     },
     "C01": {
@@ -116,7 +116,7 @@ ENTRIES = {
                 "(pool key, version -> protocol, TCP URI validation, TLS server name, request checks) - which keeps each panic!/expect/"
                 "unreachable! site of the real code as a panic outcome of its helper - never reaches one, because the services' guards "
                 "exclude it. Tied to the real Client / ConnectionPoolService / ConnectorService by differential runs over a request "
-                "grammar and an exhaustive grid every run, with panics observed in the caller and in spawned tasks.",
+                "grammar and an exhaustive grid every run, with panics observed in the caller and in spawned tasks. The grammar includes the empty host, user information, [] and ports that are URI-legal but no port numbers.",
         "note": "Trusted: Lean kernel; http/hyper/rustls behaviour assumed; TCP connect replaced by a duplex after the real URI "
                 "validation. Four panic defects found and fixed (HTTP/0.9 and HTTP/3 version constants; relative URI / CONNECT "
                 "without authority in the HTTP/1 checks; TLS server name - shared with C12).",
@@ -127,7 +127,7 @@ ENTRIES = {
                 "connection the target is origin-form with path/query preserved and '/' for an empty path (authority-form for "
                 "CONNECT), a Host header host[:non-default-port] is added unless the caller supplied one, other headers untouched; on "
                 "HTTP/2 the five connection headers and Host are removed, the rest preserved, CONNECT rejected; h2 iff requested or "
-                "ALPN h2. Model tied to the real layers + HttpConnection by differential runs observing the bytes on the wire.",
+                "ALPN h2. Model tied to the real layers + HttpConnection by differential runs observing the bytes on the wire. The client as Client::builder assembles it (layer order, pooled HTTP/1 connections handed to requests of any version) is covered by end-to-end scenarios whose server handler checks the Host header and request target it receives.",
         "note": "Trusted: Lean kernel; http crate parsers/printers and hyper's encoders are assumed; HTTP/2 side observed at the "
                 "Connection::send_request boundary (stub), HTTP/1 side on the wire.",
         "design_ref": "DESIGN.md §5 C13",
@@ -136,7 +136,7 @@ ENTRIES = {
         "text": "Theorems for every duration, inner completion time and poll schedule: the model of TimeoutFuture::poll yields the "
                 "inner result unchanged iff the inner future resolved no later than the deadline (inner wins a tie), else the timeout "
                 "error exactly at the deadline, never earlier; tied to the public service::Timeout by hand-polled runs under the "
-                "paused clock. Clean-up after expiry is dropping the inner future, i.e. the pool model's cancel.",
+                "paused clock. Clean-up after expiry is dropping the inner future, i.e. the pool model's cancel. The timeout as Client::builder installs it (three ways of handing it over, redirects followed or not, pool on/off) is covered by the toc stream: redirect hops with scripted delays under the paused clock, the whole request being one inner future for the model.",
         "note": "Trusted: Lean kernel; tokio Sleep semantics; the pooled clean-up part rests on the pool model (C03/C14) and its stream.",
         "design_ref": "DESIGN.md §5 C19",
     },
@@ -171,7 +171,7 @@ ENTRIES = {
         "text": "Theorems for every request (version, Host header, authority, TLS info, server name over arbitrary strings): "
                 "the model of sni::handle forwards a TLS request naming a host iff the server name equals that host "
                 "case-insensitively ignoring the port, marks it validated, rejects mismatches and missing SNI, never rejects a "
-                "match; model tied to the public ValidateSNI layer by differential runs. Two genuine defects found and fixed.",
+                "match; model tied to the public ValidateSNI layer by differential runs. Two genuine defects found and fixed. How the TLS information reaches the requests is part of it: the acceptor-to-service channel is modelled (state machine per recv future over a fair lock) and C20_tls_request_never_told_plain proves that under every interleaving of requests asking, being polled, being cancelled and the send, no request of a TLS connection is told that there is no TLS; tied to the real channel through a hook (every poll compared), and end to end through a real TLS server with the ValidateSNI layer (snie).",
         "note": "Trusted: Lean kernel (propext, Quot.sound, Classical.choice at most); http crate's Authority parser (host/port split) "
                 "is assumed; correspondence is sampled.",
         "design_ref": "DESIGN.md §5 C20",
@@ -180,7 +180,7 @@ ENTRIES = {
         "text": "Theorems for every address list, preference and port: the model of sort_preferred equals the specification "
                 "(first preferred-family address, first other-family address, rest in order), is a permutation, carries the "
                 "request port, prefers IPv6 unless only IPv4 is bound; model tied to the code by differential runs through "
-                "the verif hook and through TcpTransport::connecting.",
+                "the verif hook and through TcpTransport::connecting. Also through the public connect_to_addrs on loopback listeners of both families with local addresses none / loopback / wildcard (the winner, with one attempt at a time and candidates that all answer, is decided by the order alone).",
         "note": "Trusted: Lean kernel (axioms propext, Quot.sound); hand model of SocketAddrs (VecDeque semantics assumed); "
                 "correspondence is sampled (6k/300k lists). Start order of attempts is the C11 model's concern.",
         "design_ref": "DESIGN.md §5 C16",
